@@ -232,6 +232,12 @@ inductive Reach (P : Program) (s0 : State) : State → Prop where
   | init : Reach P s0 s0
   | step (s : State) (i : Nat) (fault : Bool) : Reach P s0 s → Reach P s0 (step P s i fault)
 
+/-- a state with finitely many configured actors (all others idle callers that never get scheduled
+in the examples); `tgt` = is there an initial file at `f` -/
+def State.ofList (tgt : Bool) (as : List Actor) : State :=
+  { fs := { target := if tgt then some .init else none, lock := none }
+    actors := fun j => as.getD j (Actor.init false false [] [] []) }
+
 /-- content of `f` (what a reader gets), given the content of the initial file -/
 def content (s : State) (init : Bytes) : Option Bytes :=
   match s.fs.target with
